@@ -46,7 +46,7 @@ def demo(w, path):
     return r.returncode, (r.stdout + r.stderr)[-400:]
 
 
-def cmd_import(src, prop):
+def cmd_import(src, prop, suffix=""):
     kept = []
     for x in "abcdef":
         d = os.path.join(src, x + ".diff")
@@ -68,7 +68,7 @@ def cmd_import(src, prop):
             if not verdict:
                 print("   ", tail.strip().splitlines()[-1:] if not ok else out.strip()[-200:])
                 continue
-            dest = os.path.join(HERE, "seeded", "%s-%s" % (prop, x))
+            dest = os.path.join(HERE, "seeded", "%s-%s%s" % (prop, x, suffix))
             os.makedirs(dest, exist_ok=True)
             shutil.copy(d, os.path.join(dest, "patch.diff"))
             shutil.copy(dm, os.path.join(dest, "demo.py"))
@@ -126,7 +126,7 @@ def cmd_run(names, tier="quick", all_checks=False):
 
 if __name__ == "__main__":
     if sys.argv[1] == "import":
-        cmd_import(sys.argv[2], sys.argv[3])
+        cmd_import(sys.argv[2], sys.argv[3], sys.argv[4] if len(sys.argv) > 4 else "")
     elif sys.argv[1] == "run":
         args = [a for a in sys.argv[2:] if not a.startswith("--")]
         tier = "thorough" if "--thorough" in sys.argv else "quick"
